@@ -35,17 +35,52 @@ def canon (p : Program) : Program :=
 
 def overlap (a b : Assoc) : Nat := ((keys b).filter (fun k => (keys a).contains k)).length
 
+def handle3 (inp out : Sexp) : CaseResult :=
+  match inp with
+  | .list [.atom "add3", as, bs, cs] =>
+    match decProgram as, decProgram bs, decProgram cs with
+    | some a, some b, some c =>
+      match out with
+      | .list [.atom "out3", abs, bcs, ls, rs, .list [.atom "eq", .atom eq]] =>
+        match decProgram abs, decProgram bcs, decProgram ls, decProgram rs with
+        | some ab, some bc, some l, some r =>
+          let mab := canon (add a b)
+          let mbc := canon (add b c)
+          let ml := canon (add (add a b) c)
+          let mr := canon (add a (add b c))
+          let agree := mab == ab && mbc == bc && ml == l && mr == r
+          let wf := wfB a && wfB b && wfB c
+          let spec := concatB a b ab && concatB ab c l && concatB b c bc && concatB a bc r && l == r && eq == "true"
+          { agree := agree, specOk := wf && spec,
+            nontrivial := !(a == Program.empty) && !(b == Program.empty) && !(c == Program.empty),
+            tags := ["add3", (if a == c then "A=C" else "A-ne-C")] ++ (if l != r then ["NOT-ASSOCIATIVE"] else [])
+              ++ (if !wf then ["INPUT-NOT-WF"] else []),
+            detail := s!"model-left={repr ml} model-right={repr mr} impl={out}" }
+        | _, _, _, _ => .bad s!"undecodable output {out}"
+      | .list [.atom "crash", .str msg] =>
+        { agree := false, specOk := false, nontrivial := true, tags := ["crash"], detail := msg }
+      | _ => .bad s!"undecodable output {out}"
+    | _, _, _ => .bad s!"undecodable input {inp}"
+  | _ => .bad s!"undecodable input {inp}"
+
 def handle (inp out : Sexp) : CaseResult :=
   match inp with
+  | .list (.atom "add3" :: _) => handle3 inp out
   | .list [.atom "add", as, bs] =>
     match decProgram as, decProgram bs with
     | some a, some b =>
       match out with
-      | .list [.atom "out", os, oacc, .list [.atom "eq", .atom eq], .list [.atom "getters", .atom gt]] =>
-        match decProgram os, decProgram oacc with
-        | some o, some o' =>
+      | .list [.atom "out", os, oacc, .list [.atom "eq", .atom eq], .list [.atom "getters", .atom gt], ovia] =>
+        match decProgram os, decProgram oacc, decProgram ovia with
+        | some o, some o', some ov =>
           let m := canon (add a b)
-          let agree := m == o && m == o' && eq == "true" && gt == "true"
+          -- the add_instructions(listing of B) route must give the same containers and body; its used-qubit
+          -- cache is rebuilt from B's listing, so it may be smaller than A.used ∪ B.used when B's cache is
+          -- stale (known finding C10/redefined-calibration-leaves-stale-qubits): compared as ⊆ and tagged
+          let viaSame := { ov with usedQubits := [] } == { m with usedQubits := [] } &&
+            ov.usedQubits.all (fun q => m.usedQubits.contains q)
+          let viaUsedSame := ov.usedQubits == m.usedQubits
+          let agree := m == o && m == o' && eq == "true" && gt == "true" && viaSame
           let wf := wfB a && wfB b
           let spec := concatB a b o && concatB a b o' && wfB o
           -- identities
@@ -70,10 +105,12 @@ def handle (inp out : Sexp) : CaseResult :=
             ++ (if eq != "true" then ["ADD-NE-ADDASSIGN"] else [])
             ++ (if gt != "true" then ["GETTERS-DISAGREE"] else [])
             ++ (if !idOk then ["IDENTITY-FAIL"] else [])
-          { agree := agree, specOk := wf && spec && idOk && eq == "true" && gt == "true",
+            ++ (if !viaSame then ["ADD-INSTRUCTIONS-ROUTE-DIFFERS"] else [])
+            ++ (if !viaUsedSame then ["via-route-used-smaller(C10-known)"] else [])
+          { agree := agree, specOk := wf && spec && idOk && eq == "true" && gt == "true" && viaSame,
             nontrivial := !(a == Program.empty) && !(b == Program.empty),
             tags := tags, detail := s!"model={repr m} impl={out}" }
-        | _, _ => .bad s!"undecodable output {out}"
+        | _, _, _ => .bad s!"undecodable output {out}"
       | .list [.atom "crash", .str msg] =>
         { agree := false, specOk := false, nontrivial := true, tags := ["crash"], detail := msg }
       | _ => .bad s!"undecodable output {out}"
